@@ -41,64 +41,133 @@ PARAM = {"func_grad": "funcGrad", "initial_position": "initialPosition", "bounds
          "conv_crit": "convCrit", "history_size": "historySize", "n_steps": "nSteps", "args": "args"}
 
 
-def _val(n: ast.AST, params: set[str], reassigned: set[str]) -> str:
-    if isinstance(n, ast.Name) and n.id in params and n.id in PARAM and n.id not in reassigned:
-        return f".param .{PARAM[n.id]}"
+EMPTY, ARGSDEF, OTHER, NONE = ("empty",), ("argsdef",), ("other",), ("none",)
+
+
+def _eval(n: ast.AST, env: dict) -> tuple:
+    """symbolic value of an expression: a wrapper parameter, a numeric literal, an empty sequence, `args with None
+    replaced by an empty sequence`, or something the model has no word for"""
+    if isinstance(n, ast.Name):
+        return env.get(n.id, OTHER)
+    if ast.unparse(n) in ("[]", "()", "list()", "tuple()"):
+        return EMPTY                       # scipy unpacks `*args`: no extra argument reaches the objective either way
+    if isinstance(n, ast.Constant) and n.value is None:
+        return NONE
+    if isinstance(n, ast.IfExp):
+        br = _args_none_test(n.test)
+        if br is not None:
+            vn, vp = (n.body, n.orelse) if br else (n.orelse, n.body)
+            return _merge(_eval(vn, {**env, "args": NONE}), _eval(vp, env))
+        return OTHER
     neg = False
     m = n
     if isinstance(m, ast.UnaryOp) and isinstance(m.op, ast.USub):
         neg, m = True, m.operand
     if isinstance(m, ast.Constant) and isinstance(m.value, (int, float)) and not isinstance(m.value, bool):
         f = Fraction(repr(m.value))
-        if neg:
-            f = -f
-        return f".lit ({f.numerator}) {f.denominator}"
+        return ("lit", -f if neg else f)
+    return OTHER
+
+
+def _merge(v_none: tuple, v_given: tuple) -> tuple:
+    if v_none == EMPTY and v_given == ("param", "args"):
+        return ARGSDEF
+    return v_none if v_none == v_given else OTHER
+
+
+def _args_none_test(t: ast.AST):
+    """True for `args is None`, False for `args is not None`, None for any other test"""
+    if isinstance(t, ast.Compare) and len(t.ops) == 1 and isinstance(t.left, ast.Name) and t.left.id == "args" \
+            and isinstance(t.comparators[0], ast.Constant) and t.comparators[0].value is None:
+        if isinstance(t.ops[0], ast.Is):
+            return True
+        if isinstance(t.ops[0], ast.IsNot):
+            return False
+    return None
+
+
+def _run_branch(stmts: list, env: dict) -> dict:
+    env = dict(env)
+    for s in stmts:
+        if isinstance(s, ast.Pass):
+            continue
+        if isinstance(s, ast.AnnAssign) and s.value is not None and isinstance(s.target, ast.Name):
+            env[s.target.id] = _eval(s.value, env)
+        elif isinstance(s, ast.Assign) and len(s.targets) == 1 and isinstance(s.targets[0], ast.Name):
+            env[s.targets[0].id] = _eval(s.value, env)
+        else:
+            raise Unavailable(f"minimise: statement `{ast.unparse(s)[:50]}` in a branch on args")
+    return env
+
+
+def _lean(v: tuple) -> str:
+    if v[0] == "param" and v[1] in PARAM:
+        return f".param .{PARAM[v[1]]}"
+    if v == ARGSDEF:
+        return ".param .args"
+    if v[0] == "lit":
+        return f".lit ({v[1].numerator}) {v[1].denominator}"
     return ".other"
-
-
-def _is_args_none_default(s: ast.stmt) -> bool:
-    """if args is None: args = []   (also `args = [] if args is None else args`)"""
-    if isinstance(s, ast.If) and not s.orelse and len(s.body) == 1:
-        t = s.test
-        if isinstance(t, ast.Compare) and len(t.ops) == 1 and isinstance(t.ops[0], ast.Is) \
-                and isinstance(t.left, ast.Name) and t.left.id == "args" \
-                and isinstance(t.comparators[0], ast.Constant) and t.comparators[0].value is None:
-            b = s.body[0]
-            return isinstance(b, ast.Assign) and ast.unparse(b.targets[0]) == "args" \
-                and ast.unparse(b.value) in ("[]", "list()")
-    if isinstance(s, ast.Assign) and ast.unparse(s.targets[0]) == "args":
-        return ast.unparse(s.value) in ("[] if args is None else args", "args if args is not None else []")
-    return False
 
 
 def call_record(fn: ast.FunctionDef) -> dict:
     params = {a.arg for a in fn.args.args}
     body = [s for s in fn.body if not (isinstance(s, ast.Expr) and isinstance(s.value, ast.Constant))]
-    args_default = False
-    reassigned: set[str] = set()
+    env: dict[str, tuple] = {p: ("param", p) for p in params}
     calls = []
+    call_env = None
     ret = None
+    post_touched: set[str] = set()
     for s in body:
-        if _is_args_none_default(s):
+        if isinstance(s, ast.If) and _args_none_test(s.test) is not None:
             if calls:
                 raise Unavailable("minimise: args default after the call")
-            args_default = True
+            is_none = _args_none_test(s.test)
+            b_none, b_given = (s.body, s.orelse) if is_none else (s.orelse, s.body)
+            e_none = _run_branch(b_none, {**env, "args": NONE})
+            e_given = _run_branch(b_given, env)
+            merged = {}
+            for k in set(e_none) | set(e_given):
+                vn, vg = e_none.get(k, OTHER), e_given.get(k, OTHER)
+                if k == "args" and vn == NONE and vg == ("param", "args"):
+                    merged[k] = ("param", "args")          # untouched: still the raw parameter (may be None)
+                else:
+                    merged[k] = _merge(vn, vg)
+            env = merged
             continue
         if isinstance(s, ast.Assign) and isinstance(s.value, ast.Call) \
                 and ast.unparse(s.value.func).endswith("fmin_l_bfgs_b"):
             calls.append(s)
+            call_env = dict(env)
             continue
         if isinstance(s, ast.Return):
             if s is not body[-1]:
                 raise Unavailable("minimise: early return")
             ret = s
             continue
-        # any other statement may change what is forwarded: record parameters it rebinds
-        touched = {t.id for n in ast.walk(s) for t in ([n] if isinstance(n, ast.Name) and
-                                                       isinstance(n.ctx, ast.Store) else [])}
+        if calls:
+            # after the call only names other than the results may be bound
+            touched = {n.id for n in ast.walk(s) if isinstance(n, ast.Name) and isinstance(n.ctx, ast.Store)}
+            if not touched:
+                raise Unavailable(f"minimise: statement `{ast.unparse(s)[:50]}`")
+            for t in touched:
+                env[t] = OTHER
+            post_touched |= touched
+            continue
+        if isinstance(s, ast.AnnAssign) and s.value is not None and isinstance(s.target, ast.Name):
+            env[s.target.id] = _eval(s.value, env)
+            continue
+        if isinstance(s, ast.Assign) and len(s.targets) == 1 and isinstance(s.targets[0], ast.Name):
+            env[s.targets[0].id] = _eval(s.value, env)
+            continue
+        # any other statement may change what is forwarded: the names it binds are no longer known
+        touched = {n.id for n in ast.walk(s) if isinstance(n, ast.Name) and isinstance(n.ctx, ast.Store)}
         if not touched:
             raise Unavailable(f"minimise: statement `{ast.unparse(s)[:50]}`")
-        reassigned |= touched
+        for t in touched:
+            env[t] = OTHER
+    if call_env is None:
+        call_env = dict(env)
     if len(calls) != 1 and not (len(calls) == 0 and ret is not None and isinstance(ret.value, ast.Call)):
         raise Unavailable(f"minimise: {len(calls)} calls of fmin_l_bfgs_b")
     if calls:
@@ -124,7 +193,7 @@ def call_record(fn: ast.FunctionDef) -> dict:
             raise Unavailable("minimise: starred / too many positional arguments")
         if _is_default(SIGNATURE[i], a):
             continue
-        bound[SIGNATURE[i]] = _val(a, params, reassigned)
+        bound[SIGNATURE[i]] = _eval(a, call_env)
     unknown = False
     for k in call.keywords:
         if k.arg is None:
@@ -134,8 +203,9 @@ def call_record(fn: ast.FunctionDef) -> dict:
             continue
         if _is_default(k.arg, k.value):
             continue
-        bound[k.arg] = _val(k.value, params, reassigned)
-    kwargs = [(f".{KW[k]}", bound[k]) for k in SIGNATURE if k in bound]
+        bound[k.arg] = _eval(k.value, call_env)
+    args_default = bound.get("args") == ARGSDEF
+    kwargs = [(f".{KW[k]}", _lean(bound[k])) for k in SIGNATURE if k in bound]
     if unknown:
         kwargs.append((".unknown", ".other"))
     # return statement
@@ -146,14 +216,14 @@ def call_record(fn: ast.FunctionDef) -> dict:
         rets = [".calleeResult 0", ".calleeResult 1", ".calleeResult 2"]
     elif isinstance(ret.value, ast.Tuple):
         for e in ret.value.elts:
-            if isinstance(e, ast.Name) and e.id in names:
+            if isinstance(e, ast.Name) and e.id in names and e.id not in post_touched:
                 rets.append(f".calleeResult {names.index(e.id)}")
-            elif whole is not None and isinstance(e, ast.Subscript) and ast.unparse(e.value) == whole \
+            elif whole is not None and whole not in post_touched and isinstance(e, ast.Subscript) and ast.unparse(e.value) == whole \
                     and isinstance(e.slice, ast.Constant) and isinstance(e.slice.value, int):
                 rets.append(f".calleeResult {e.slice.value}")
             else:
                 rets.append(".other")
-    elif whole is not None and isinstance(ret.value, ast.Name) and ret.value.id == whole:
+    elif whole is not None and isinstance(ret.value, ast.Name) and ret.value.id == whole and whole not in post_touched:
         rets = [".calleeResult 0", ".calleeResult 1", ".calleeResult 2"]
     else:
         rets = [".other"]
